@@ -1,6 +1,6 @@
 #include <primitiv/config.h>
 
-#include <cstdlib>
+#include <new>
 
 #include <primitiv/devices/eigen/device.h>
 #include <primitiv/devices/eigen/ops/common.h>
@@ -10,14 +10,20 @@ namespace devices {
 
 std::shared_ptr<void> Eigen::new_handle(const Shape &shape, std::size_t * const allocated_size) {
   const std::size_t mem_size = sizeof(float) * static_cast<std::size_t>(shape.size());
-  void *data = std::malloc(mem_size);
+  // NOTE: Eigen's vectorized kernels peel a scalar prologue until the
+  // destination is packet-aligned, and scalar/packet math functions are not
+  // bit-identical. Aligned buffers keep results independent of the heap state.
+  void *data = nullptr;
+  try {
+    data = ::Eigen::internal::aligned_malloc(mem_size);
+  } catch (const std::bad_alloc &) {}
   if (!data) {
     PRIMITIV_THROW_ERROR("Memory allocation failed. Requested size: " << mem_size);
   }
   if (allocated_size) {
     *allocated_size = mem_size;
   }
-  return std::shared_ptr<void>(data, std::free);
+  return std::shared_ptr<void>(data, ::Eigen::internal::aligned_free);
 }
 
 }  // namespace devices
